@@ -12,6 +12,7 @@ namespace Arca.Model
 inductive Step (P : Prepared) : R → R → Prop
   | setDag (r : R) (g : Graph String) : Step P r ({ r.1 with dag := g }, r.2)
   | setData (r : R) (d : Val) : Step P r ({ r.1 with data := d }, r.2)
+  | setFinished (r : R) (f : List (String × String)) : Step P r ({ r.1 with finished := f }, r.2)
   | drain (r : R) : Step P r ({ r.1 with errs := 0 }, r.2)
   | provide (r : R) (a b : String) (v : Val) : Step P r (emit r (.provide a b v))
   | skipped (r : R) (o : String) (v : Val) : r.1.outputDone = true → Step P r (emit r (.outputSkipped o v))
@@ -135,6 +136,22 @@ theorem markStageUnres_reach (step stage : String) (r : R) :
   repeat' split
   all_goals first | exact .refl _ | exact .single (.die _ _) | exact .single (.setDag _ _)
 
+theorem markRemainingOne_reach (step : String) (r : R) (stage : String) :
+    Reach P r (markRemainingOne P step r stage) := by
+  unfold markRemainingOne
+  split
+  · exact .refl _
+  · exact (markOutputsUnres_reach _ _ none r).trans (markStageUnres_reach _ _ _)
+
+theorem markRemaining_reach (step : String) (r : R) : Reach P r (markRemaining P step r) := by
+  unfold markRemaining
+  generalize P.stagesOf step = l
+  induction l generalizing r with
+  | nil => exact .refl r
+  | cons x rest ih =>
+    rw [List.foldl_cons]
+    exact (markRemainingOne_reach step r x).trans (ih _)
+
 theorem checkDeadlock_reach (retries : Nat) (busy : Bool) (r : R) :
     Reach P r (checkDeadlock P retries busy r) := by
   unfold checkDeadlock
@@ -154,9 +171,19 @@ theorem Reach.sendErr_cancel (r : R) (k : ErrKind) (hk : k ≠ .noMoreOutputs) :
     Reach P r (doCancel (sendErr P.errCap r k)) :=
   (Reach.single (.sendErr r k hk)).tail (.cancel _)
 
+theorem Reach.of_setFinished {r c : R} {f : List (String × String)}
+    (h : Reach P ({ r.1 with finished := f }, r.2) c) : Reach P r c := .head (.setFinished r f) h
+
+theorem finishStage_reach (fns : Fns) (ord : Order) (step : String) (complete : Bool) (r : R) :
+    Reach P r (finishStage P fns ord step complete r) := by
+  unfold finishStage
+  split
+  · exact (markRemaining_reach step r).trans (notifySteps_reach fns ord _ _)
+  · exact notifySteps_reach fns ord _ _
+
 theorem onStageCompleteBody_reach (fns : Fns) (ord : Order) (step prev : String)
-    (out : Option (String × Val)) (r : R) :
-    Reach P r (onStageCompleteBody P fns ord step prev out r) := by
+    (out : Option (String × Val)) (complete : Bool) (r : R) :
+    Reach P r (onStageCompleteBody P fns ord step prev out complete r) := by
   unfold onStageCompleteBody
   dsimp only
   split
@@ -166,8 +193,9 @@ theorem onStageCompleteBody_reach (fns : Fns) (ord : Order) (step prev : String)
   · exact .single (.die _ _)
   · exact .sendErr_cancel _ _ (by decide)
   apply Reach.of_setDag
+  apply Reach.of_setFinished
   split
-  · exact notifySteps_reach fns ord _ _
+  · exact finishStage_reach fns ord _ _ _
   split
   · exact .sendErr_cancel _ _ (by decide)
   split
@@ -176,7 +204,7 @@ theorem onStageCompleteBody_reach (fns : Fns) (ord : Order) (step prev : String)
   · exact .sendErr_cancel _ _ (by decide)
   split
   · exact .of_setDag (markOutputsUnres_reach _ _ _ _)
-  · exact .of_setDag ((markOutputsUnres_reach _ _ _ _).trans (.of_setData (notifySteps_reach fns ord _ _)))
+  · exact .of_setDag ((markOutputsUnres_reach _ _ _ _).trans (.of_setData (finishStage_reach fns ord _ _ _)))
 
 theorem react_reach (fns : Fns) (ord : Order) (s : LoopState) (e : Event) :
     Reach P (s, []) (react P fns ord s e) := by
@@ -195,7 +223,8 @@ theorem react_reach (fns : Fns) (ord : Order) (s : LoopState) (e : Event) :
       exact notifySteps_reach fns ord _ _
   · split
     · exact .refl _
-    · exact (onStageCompleteBody_reach fns ord _ _ _ _).trans (checkDeadlock_reach _ _ _)
+    · exact (onStageCompleteBody_reach fns ord _ _ _ _ _).trans (checkDeadlock_reach _ _ _)
+  · exact (onStageCompleteBody_reach fns ord _ _ _ _ _).trans (checkDeadlock_reach _ _ _)
   · dsimp only
     split
     · exact (markOutputsUnres_reach _ _ none (s, [])).trans (markStageUnres_reach _ _ _)
